@@ -11,6 +11,8 @@ def run(ctx):
     ca.request_layout(ctx)
     ca.req_dispatch(ctx, "J1939_21")
     ca.req_guard(ctx)
+    ctx.rule("R-CA-LOOPS", "the destination filter and the request dispatch loop consult every CA of the stack (no early exit)", floor=2)
+    ca.ca_loops(ctx, "J1939_21")
     ctx.rule("R-SUBSCRIBER-RULE", "the dispatch predicate: message_acceptable <=> NORMAL and (dest == GLOBAL or held address == dest)", floor=1)
     ca.message_acceptable_rule(ctx)
     ca.claim_only(ctx)
